@@ -339,6 +339,11 @@ def run(cx):
     check_validators(cx, "C06.h")
     from props.shared import resync_walk
     resync_walk(cx, "C06.i")
+    from props.shared import window_walks
+    window_walks(cx, "C06.j")
+    # the sender is bounded by the *peer's* limit and the receiver enforces its *own*
+    from props.C07 import inst_config_mirror
+    inst_config_mirror(cx, "C06.k")
 
 
 SELFTEST = [
